@@ -158,6 +158,13 @@ inductive Ev where
       `AssertType`, failed assertion inside a native, …) or the execution limit is detected by this
       loop's poller (`catchable = false`) -/
   | raise (catchable : Bool)
+  /-- an overloaded operator / protocol entry whose call fails *before* its frame is pushed
+      (`call_overridden_op_N` has pushed the instance and the arguments — `n` registers — at
+      `new_frame_base`, then `call_callable` fails: wrong arity of the Koto function, a value that is
+      not callable, a native function that returns `Err`): the registers stay above the frame and
+      the instruction fails. Discarded when the error is caught (fix 8f4d2e4) or when the frame is
+      left. -/
+  | opSetupFail (n : Nat)
   /-- comparison operator overloaded in Koto / `@next` implemented in Koto: `call_overridden_op_N`
       with `args` arguments, barrier, nested `execute_instructions` -/
   | nested (args argRegs : Nat)
@@ -230,8 +237,12 @@ def unwindGo (allowCatch : Bool) : List Frame → VM → VM × Option (Nat × Na
   | f :: rest, vm =>
     match allowCatch, f.catches with
     | true, c :: _ =>
-      -- the builders opened in the try block are discarded (fix 97373d1)
-      ({ vm with seq := min vm.seq c.2.2.1, str := min vm.str c.2.2.2 }, some (c.1, c.2.1))
+      -- the builders opened in the try block are discarded (fix 97373d1); at the catch point the
+      -- value stack is resized to exactly the frame's required registers
+      -- (`registers.resize(min_frame_registers)`, fix 8f4d2e4: whatever a half-set-up operation left
+      -- above the frame is discarded, and a stack cut short by a failed call is grown again)
+      ({ vm with seq := min vm.seq c.2.2.1, str := min vm.str c.2.2.2, regs := vm.minRegs },
+        some (c.1, c.2.1))
     | _, _ =>
       if f.barrier then (vm, none)
       else unwindGo allowCatch rest (popTo f rest vm).1
@@ -414,6 +425,7 @@ def step (ev : Ev) (st : St) : St :=
       { st with vm := { st.vm with
           exports := (if k ∈ st.vm.exports then st.vm.exports else st.vm.exports ++ [k]) } }
     | .raise c => raise c st
+    | .opSetupFail n => raise true { st with vm := { st.vm with regs := st.vm.regs + n } }
     | .importBegin m =>
       if m ∈ st.vm.placeholders then raise true st        -- "recursive import of module"
       else if m ∈ st.vm.cached then st                    -- served from the cache
